@@ -54,6 +54,8 @@ def build(c):
 
 def kobj(c):
     k, kind = c["k"], c["kind"]
+    if kind.startswith("np:"):
+        return getattr(np, kind[3:])(k)
     if kind == "npint32":
         return np.int32(k)
     if kind == "npuint8":
@@ -63,7 +65,7 @@ def kobj(c):
 
 def wire_kind(kind):
     """numpy integer classes are one kind for the model (class name in INTEGERS)"""
-    return "npint" if kind in ("npint32", "npuint8") else kind
+    return "npint" if (kind in ("npint32", "npuint8") or kind.startswith("np:")) else kind
 
 
 def call(c, X):
@@ -81,6 +83,8 @@ def call(c, X):
         return getattr(np, fn)(X)
     if e == "vec":
         return getattr(M, fn + "_vector")(X)
+    if e == "func":
+        return getattr(M, fn)(X)
     return getattr(X, fn)()
 
 
@@ -95,12 +99,26 @@ def canon(r):
     return ("err", "NotInterval")
 
 
+MUTATED = [None]      # set by run_impl: description of an operand changed in place by the last call
+
+
 def run_impl(c):
+    MUTATED[0] = None
+    X = None
     try:
         with np.errstate(all="ignore"):
-            return canon(call(c, build(c)))
+            X = build(c)
+            lo0, hi0 = np.array(X.lo, copy=True), np.array(X.hi, copy=True)
+            r = canon(call(c, X))
     except BaseException as e:  # noqa
-        return ("err", err_kind(e))
+        r = ("err", err_kind(e))
+    if X is not None:
+        try:
+            if not (np.array_equal(lo0, X.lo, equal_nan=True) and np.array_equal(hi0, X.hi, equal_nan=True)):
+                MUTATED[0] = f"operand changed in place: lo {lo0.tolist()} -> {np.asarray(X.lo).tolist()}, hi {hi0.tolist()} -> {np.asarray(X.hi).tolist()}"
+        except Exception:
+            pass
+    return r
 
 
 def uses_array_op(c):
@@ -119,6 +137,12 @@ def fz(x):
     return x if math.isfinite(x) else 0.0
 
 
+def qe(x):
+    """extended value on the wire: +inf (numpy.exp overflow) is the token `inf`"""
+    x = float(x)
+    return "inf" if x == math.inf else q(fz(x))
+
+
 def wire(c):
     fn = c["fn"]
     arr = uses_array_op(c)
@@ -128,18 +152,21 @@ def wire(c):
         lo, hi = lo[:1], hi[:1]
     tag = "A" if arr else "S"
     enc = (lambda v: ql([fz(x) for x in v])) if arr else (lambda v: q(fz(v[0])))
+    ence = (lambda v: "[" + ",".join(qe(x) for x in v) + "]") if arr else (lambda v: qe(v[0]))
     with np.errstate(all="ignore"):
         if fn == "abs":
             return f"abs {tag} {enc(lo)} {enc(hi)}"
         if fn in MONO:
             f = getattr(np, fn)
+            if fn == "exp":
+                return f"{fn} {tag} {enc(lo)} {enc(hi)} {ence(f(lo))} {ence(f(hi))}"
             return f"{fn} {tag} {enc(lo)} {enc(hi)} {enc(f(lo))} {enc(f(hi))}"
         if fn == "pow":
             return f"pow {tag} {wire_kind(c['kind'])} {int(c['k'])} {enc(lo)} {enc(hi)}"
         if fn == "sig":
-            return f"sig {tag} {enc(np.exp(-hi))} {enc(np.exp(-lo))}"
+            return f"sig {tag} {ence(np.exp(-hi))} {ence(np.exp(-lo))}"
         if fn == "tanh":
-            return f"tanh {tag} {enc(np.exp(2 * lo))} {enc(np.exp(2 * hi))}"
+            return f"tanh {tag} {ence(np.exp(2 * lo))} {ence(np.exp(2 * hi))}"
         T = np.pi if fn == "tan" else 2 * np.pi
         f = getattr(np, fn)
         w = hi - lo
@@ -165,9 +192,26 @@ def parse_model(c, s):
         if t[1] == "inf":
             return ("ok", [-math.inf], [math.inf])
         return ("ok", [unq(t[1])], [unq(t[2])])
+    uq = lambda z: math.inf if z == "inf" else unq(z)
     if arr:
-        return ("ok", unql(t[1]), unql(t[2]))
-    return ("ok", [unq(t[1])], [unq(t[2])])
+        ul = lambda z: [uq(y) for y in z.strip()[1:-1].split(",")] if z.strip() != "[]" else []
+        return ("ok", ul(t[1]), ul(t[2]))
+    return ("ok", [uq(t[1])], [uq(t[2])])
+
+
+def pow_out_of_range(c):
+    """a power of an endpoint underflows to 0 or overflows to inf in binary64: rounding range effects the exact
+    model does not have (tie not applicable; the oracle still judges the real result)"""
+    if c["fn"] != "pow" or c["k"] is None:
+        return False
+    k = abs(int(c["k"]))
+    with np.errstate(all="ignore"):
+        for x in c["lo"] + c["hi"]:
+            if x != 0.0:
+                v = float(np.power(np.float64(abs(x)), k))
+                if v == 0.0 or math.isinf(v):
+                    return True
+    return False
 
 
 def exact_inputs(c):
@@ -255,7 +299,11 @@ def in_domain(c, lo, hi):
 
 
 def sample_points(c, lo, hi):
-    xs = np.linspace(lo, hi, NS)
+    if math.isfinite(hi - lo):
+        xs = np.linspace(lo, hi, NS)
+    else:
+        t = np.linspace(0.0, 1.0, NS)
+        xs = lo * (1 - t) + hi * t
     xs[0], xs[-1] = lo, hi
     np.clip(xs, lo, hi, out=xs)
     if c["fn"] in ("sin", "cos"):
@@ -313,6 +361,9 @@ def oracle_element(c, lo, hi, res):
     with np.errstate(all="ignore"):
         xs = sample_points(c, lo, hi)
         vs = ref_fn(c)(xs)
+    if np.any(vs == np.inf) and b != math.inf and c["fn"] != "tan":
+        out.append(("unsound", f"f overflows to inf inside [{lo!r},{hi!r}] but the upper bound is {b!r}"))
+        return out
     ok = np.isfinite(vs)
     vs = vs[ok]
     xs = xs[ok]
@@ -326,8 +377,16 @@ def oracle_element(c, lo, hi, res):
     ex = monotone_exact(c, lo, hi)
     if ex is not None and not out:
         ea, eb = ex
-        if math.isfinite(ea) and math.isfinite(eb):
-            if abs(a - ea) > tol(c, ea, a) or abs(b - eb) > tol(c, eb, b):
+        bad = False
+        for got, want in ((a, ea), (b, eb)):
+            if math.isnan(want):
+                continue
+            if math.isinf(want) or math.isinf(got):
+                bad = bad or (got != want)
+            else:
+                bad = bad or abs(got - want) > tol(c, want, got)
+        if bad:
+            if True:
                 out.append(("inexact", f"exact range of f on [{lo!r},{hi!r}] is [{ea!r},{eb!r}], result is [{a!r},{b!r}]"))
     return out
 
@@ -359,7 +418,7 @@ def oracle(c, impl):
     """list of (symptom, text) — the property evaluated on the real result"""
     els = elements(c)
     fn = c["fn"]
-    if fn == "pow" and c["kind"] not in ("int", "npint", "npint32", "npuint8"):
+    if fn == "pow" and wire_kind(c["kind"]) not in ("int", "npint"):
         return []          # the property quantifies over integer exponents
     fails = []
     n = len(els)
@@ -396,7 +455,7 @@ def oracle(c, impl):
 
 def features(c, symptom):
     return {"fn": c["fn"], "form": c["form"], "entry": c["entry"], "symptom": symptom,
-            "k": (int(c["k"]) if c["k"] is not None else 0), "n": len(c["lo"]),
+            "k": (int(c["k"]) if c["k"] is not None else 0), "n": len(c["lo"]), "range": pow_out_of_range(c),
             "call": "Interval elementary function"}
 
 
@@ -537,6 +596,84 @@ def gen_cases(ctx):
             xs = [strad() if rng.random() < 0.7 else rng.choice([(1.0, 2.0), (-3.0, -1.5), (0.5, 0.75)]) for _ in range(n)]
             cases.append(mk("pow-straddle", "pow", "A2" if n == 4 and rng.random() < 0.5 else "A", "method",
                             [x[0] for x in xs], [x[1] for x in xs], k, rng.choice(["int", "npint"])))
+    # ---- 0e. valid EXTREME arguments of the exp-based maps: beyond +-709.78 (exp overflows), +-745.13 (underflows),
+    #          half of those for tanh (exp(2x)); mixed-sign wide intervals; arrays mixing moderate and extreme elements
+    XP = [-1e308, -1500.0, -800.0, -746.0, -745.2, -745.1, -710.0, -709.8, -709.7, -400.0, -372.6, -372.5, -355.0, -354.8,
+          -50.0, -1.0, 0.0, 1.0, 50.0, 354.8, 355.0, 372.5, 372.6, 400.0, 709.7, 709.78, 709.8, 710.0, 745.0, 746.0,
+          800.0, 1500.0, 1e308]
+    XI = [(a, b) for i, a in enumerate(XP) for b in XP[i:]]
+    moderate = [(-1.0, 1.0), (0.5, 2.0), (-3.0, -0.5), (0.0, 0.0), (-20.0, 30.0)]
+    for fn in ("exp", "sig", "tanh"):
+        entries = {"exp": ["method", "ufunc", "func"], "sig": ["method", "alt"], "tanh": ["method"]}[fn]
+        for lo, hi in XI:
+            cases.append(mk("extreme", fn, "S", rng.choice(entries), [lo], [hi]))
+        for _ in range(ctx.scale(150, 3000)):
+            n = rng.choice([1, 2, 3, 4, 6])
+            xs = [rng.choice(XI) if rng.random() < 0.5 else rng.choice(moderate) for _ in range(n)]
+            xs[rng.randrange(n)] = rng.choice(XI)
+            if n > 1:
+                j = rng.randrange(n)
+                xs[j] = rng.choice(moderate) if xs[j] in XI and sum(x in XI for x in xs) > 1 else xs[j]
+            form = "S1" if n == 1 else ("A2" if (n in (4, 6) and rng.random() < 0.4) else "A")
+            cases.append(mk("extreme-array", fn, form, rng.choice(entries), [x[0] for x in xs], [x[1] for x in xs]))
+    # ---- 0f. domain edges of sqrt / log: a lower endpoint just below 0 MUST raise through every entry point;
+    #          0, -0.0 (sqrt) and the smallest positive doubles (log) are inside the domain and must not
+    below = [-5e-324, -1e-320, -1e-300, -1e-17, -1.1102230246251565e-16, -2.220446049250313e-16, -1e-9]
+    inside_sqrt = [0.0, -0.0, 5e-324, 1e-300, 1e-17]
+    inside_log = [5e-324, 1e-320, 1e-300, 1e-17, 2.220446049250313e-16]
+    his = [1e-300, 1e-16, 1.0, 4.0]
+    for fn in ("sqrt", "log"):
+        inside = inside_sqrt if fn == "sqrt" else inside_log
+        for lo in below + inside + ([0.0, -0.0] if fn == "log" else []):
+            for hi in his + [max(lo, 0.0)]:
+                if hi < lo:
+                    continue
+                for entry in ("method", "ufunc", "func"):
+                    cases.append(mk("domain-edge", fn, "S", entry, [lo], [hi]))
+                cases.append(mk("domain-edge", fn, "S1", rng.choice(["method", "ufunc", "func"]), [lo], [hi]))
+        good = [(1.0, 2.0), (0.25, 9.0), (1e-300, 1.0), (4.0, 4.0)]
+        for _ in range(ctx.scale(120, 2500)):
+            n = rng.choice([2, 3, 4, 6])
+            xs = [rng.choice(good) for _ in range(n)]
+            r = rng.random()
+            if r < 0.6:
+                xs[rng.randrange(n)] = (rng.choice(below), rng.choice(his))
+            elif r < 0.85:
+                xs[rng.randrange(n)] = (rng.choice(inside), rng.choice(his))
+            form = "A2" if (n in (4, 6) and rng.random() < 0.4) else "A"
+            cases.append(mk("domain-edge-array", fn, form, rng.choice(["method", "ufunc", "func"]),
+                            [x[0] for x in xs], [x[1] for x in xs]))
+    # ---- 0g. arrays all of whose elements have an endpoint EXACTLY on a multiple of pi/2 (pi/4 for tan) -------------
+    for fn in TRIG:
+        period = PI if fn == "tan" else T2
+        qd = period / 4
+        def onq():
+            k = rng.randint(-8, 8)
+            g = k * qd
+            r = rng.random()
+            if r < 0.4:
+                return (g, g + rng.choice([0.0, qd, 2 * qd, 3 * qd, rng.uniform(0, period)]))
+            if r < 0.8:
+                return (g - rng.choice([0.0, qd, 2 * qd, rng.uniform(0, period)]), g)
+            return (g, rng.randint(k, k + 5) * qd)
+        for _ in range(ctx.scale(150, 3000)):
+            n = rng.choice([2, 3, 4, 5, 6])
+            xs = [onq() for _ in range(n)]
+            form = "A2" if (n in (4, 6) and rng.random() < 0.4) else "A"
+            cases.append(mk("trig-quadrant-array", fn, form, rng.choice(["method", "ufunc", "func"]),
+                            [x[0] for x in xs], [x[1] for x in xs]))
+    # ---- 0h. powers whose endpoint powers underflow / overflow in binary64; every numpy integer class ----------------
+    tiny = [(1e-200, 1e200), (1e-100, 2.0), (-3.0, -1e-90), (1e-160, 1e-150), (-1e-200, -1e-300), (1e-120, 1e-110), (1e80, 1e160)]
+    for lo, hi in tiny:
+        for k in (-4, -3, -2, -1, 2, 3, 4):
+            cases.append(mk("pow-range", "pow", "S", "method", [lo], [hi], k, rng.choice(["int", "npint"])))
+    cases.append(mk("pow-range", "pow", "A", "method", [1e-200, 1.0], [1e200, 2.0], -2, "int"))
+    for dt in ("int8", "int16", "int32", "int64", "uint8", "uint16", "uint32", "uint64", "intp"):
+        for _ in range(ctx.scale(4, 40)):
+            lo, hi = rng.choice([(-3.0, 1.0), (-1.0, 2.0), (1.0, 2.0), (-3.0, -2.0), (0.0, 2.0), (-2.5, 0.5)])
+            k = rng.randint(0, 6) if dt.startswith("u") else rng.randint(-4, 6)
+            form = rng.choice(["S", "S", "A"])
+            cases.append(mk("pow-kinds", "pow", form, "method", [lo, 1.0], [hi, 2.0], k, "np:" + dt))
     # ---- 1. sin / cos / tan ---------------------------------------------------------
     for fn in TRIG:
         period = PI if fn == "tan" else T2
@@ -682,15 +819,21 @@ def run(ctx: core.Check, cases=None):
         key = (c["fn"], c["form"], c["entry"], tuple(c["lo"]), tuple(c["hi"]), c["k"], c["kind"])
         ctx.count(key, nontrivial(c), c["stream"])
         impl = run_impl(c)
+        mutated = MUTATED[0]
         model = parse_model(c, rep)
-        if agree(c, impl, model):
+        if pow_out_of_range(c):
+            ctx.bump("tie-not-applicable:pow-underflow/overflow")
+        elif agree(c, impl, model):
             ctx.tie_ok()
         else:
             ctx.tie_bad(c["stream"], case_json(c), impl, rep)
         ctx.bump(f"fn:{c['fn']}")
         ctx.bump(f"form:{c['form']}")
         ctx.bump("impl:" + (impl[1] if impl[0] == "err" else "value"))
-        for sym, text in oracle(c, impl)[:1]:
+        found = oracle(c, impl)
+        if mutated and not found:
+            found = [("operand-mutated", mutated)]
+        for sym, text in found[:1]:
             ctx.fail(features(c, sym), case_json(c, impl=impl), f"{c['fn']} {c['form']}/{c['entry']}: {text}")
         if len(ctx.samples) < 6 and c["stream"] in ("trig-array", "pow-array", "mono-random", "trig-pairs") and ctx.rng.random() < 0.01:
             ctx.sample(case_json(c, impl=impl, model=rep))
